@@ -3,7 +3,7 @@
 From Coq Require Import String List NArith ZArith Bool.
 From J5V.lib Require Import Text Outcome GoExpr.
 From J5V.model Require Import BclLexer BclParser BclFmt BclLsp BclFmtAligned.
-From J5V.proofs Require Import BclPosProofs BclLexerProofs BclParserProofs BclTextProofs BclFmtProofs BclFmtFullProofs BclLspProofs BclLspClampProofs BclDocBytesProofs BclFmtGenProofs BclFmtGenAllProofs BclFmtDiffsIdemProofs BclTokEndProofs.
+From J5V.proofs Require Import BclPosProofs BclLexerProofs BclParserProofs BclTextProofs BclFmtProofs BclFmtFullProofs BclLspProofs BclLspClampProofs BclDocBytesProofs BclFmtGenProofs BclFmtGenAllProofs BclFmtDiffsIdemProofs BclTokEndProofs BclExtentFullProofs.
 Import ListNotations.
 Local Open Scope Z_scope.
 
@@ -165,6 +165,14 @@ Theorem C19_formatted_no_edits_partial : forall x y, fmt_bytes x = Ok y ->
              (extent_ok ds = true -> fmt_diffs y = Ok []).
 Proof. exact fmt_diffs_idem_extent. Qed.
 Print Assumptions C19_formatted_no_edits_partial.
+
+(* ... and the full statement: extent_ok holds for the diffs of every fixed point of Fmt (proofs/BclExtentProofs.v: the
+   closing EOL token of fragment i of the formatter's output sits on line (newlines of the text up to fragment i) - 1;
+   proofs/BclWalkTokProofs.v: the fragment read back ends on that token's line; proofs/BclExtentFullProofs.v: the
+   arithmetic), so the editor is offered NO edit for formatted text, for every input the formatter accepts *)
+Theorem C19_formatted_no_edits_full : C19_formatted_no_edits_full_statement.
+Proof. exact fmt_diffs_idem_full. Qed.
+Print Assumptions C19_formatted_no_edits_full.
 
 (* the same under the stronger, self-contained condition [aligned ds true (-1)] (starts and extents) *)
 Theorem C19_formatted_no_edits_aligned : forall x y, fmt_bytes x = Ok y ->
